@@ -38,7 +38,7 @@ def cursor_sites(facts, crates):
     """[{fn, line, callee, remaining, amount, offset_param, advanced}]"""
     out = []
     cache = {}
-    for rec in facts.all_fns(crates):
+    for rec in facts.all_fns(crates, contains=("SubWithOverflow", '"Sub"')):
         if "::tests::" in rec["id"] or "testutil" in rec["id"]:
             continue
         fn = Fn(rec)
